@@ -11,7 +11,7 @@ ENGINES = [
      "kind_free_text": "explicit-state BFS over operation histories on the real objects, canonical-state merging, reference model per step, unmerged cross-check"},
 ]
 
-FIX_COMMITS = ["9971f7b (C01)", "a8b3a60 (C05)", "d2c67e0 (C06)", "af8a5f7 (C06)", "34517b9 (C07)", "64d9058 (C07)", "904ce30 (C11)", "3cabaaa (C11)", "16cad7c (C17)", "914c67b (C17)", "3644eb2 (C20)", "62e89ba (C20)", "4c86fa4 (C04)", "7c927a3 (C16)", "3b28f4c (C16)", "63b789b (C16)", "fe25d7c (C08)", "befe4b1 (C08)", "06b04f5 (C08)", "fbc7b08 (C13)", "7b7750f (C13)", "0b2d530 (C13)", "3717859 (C19)", "1162db7 (C19)", "1ef4601 (C02)", "41fcc59 (C02)", "8eee2e6 (C02)", "f691a46 (C03)", "cc96ad7 (C10)", "12bc436 (C10)", "7b37d74 (C09)", "e4cffa4 (C09)", "0d05afb (C09)", "1fda812 (C12)", "52bde7a (C03)", "adc268a (C01)", "88cad76 (C01)", "16a930a (C01)", "aa5ac88 (C10)", "e5e378b (C10)", "5c39267 (C01)", "e4ae6ac (C10)"]
+FIX_COMMITS = ["9971f7b (C01)", "a8b3a60 (C05)", "d2c67e0 (C06)", "af8a5f7 (C06)", "34517b9 (C07)", "64d9058 (C07)", "904ce30 (C11)", "3cabaaa (C11)", "16cad7c (C17)", "914c67b (C17)", "3644eb2 (C20)", "62e89ba (C20)", "4c86fa4 (C04)", "7c927a3 (C16)", "3b28f4c (C16)", "63b789b (C16)", "fe25d7c (C08)", "befe4b1 (C08)", "06b04f5 (C08)", "fbc7b08 (C13)", "7b7750f (C13)", "0b2d530 (C13)", "3717859 (C19)", "1162db7 (C19)", "1ef4601 (C02)", "41fcc59 (C02)", "8eee2e6 (C02)", "f691a46 (C03)", "cc96ad7 (C10)", "12bc436 (C10)", "7b37d74 (C09)", "e4cffa4 (C09)", "0d05afb (C09)", "1fda812 (C12)", "52bde7a (C03)", "adc268a (C01)", "88cad76 (C01)", "16a930a (C01)", "aa5ac88 (C10)", "e5e378b (C10)", "5c39267 (C01)", "e4ae6ac (C10)", "42c5837 (C12)"]
 
 _PENDING = "check not built yet in this session (build order: DESIGN.md section 6); it will be decided by the same bounded-exhaustive technique"
 
@@ -120,7 +120,7 @@ CHECKS = {
         "engine": "ENUM",
         "design_ref": "DESIGN.md 2.4, 3/C12",
         "technique": "bounded-exhaustive syntax-alphabet strings through parse_tag/Template, token mutations, serialise round trip, settrace step counts on pumped families",
-        "text": "All strings of <= 4 / <= 5 tokens over the 19-token syntax alphabet go through parse_tag+compile and 7 tag heads, all <= 4 / <= 5-token template strings through Template(), plus every single-token mutant and every proper prefix (truncation) of a generated family of documented-syntax tags: "
+        "text": "All strings of <= 4 / <= 5 tokens over the 19-token syntax alphabet go through parse_tag+compile and 7 tag heads, all <= 4 / <= 5-token template strings through Template(), plus every single-token mutant and every proper prefix (truncation) of a generated family of documented-syntax tags, and every block tag registered in the engine in 8 forms as a nested expression inside a string value: "
                 "the outcome must be a return or TemplateSyntaxError (2 s hang alarm, crashes keyed by call site); the serialise/re-parse fixpoint is checked on every generated tag, and executed-line counts over ~9.3 k pumping and nesting families (incl. never-closed nested-expression openers inside strings) for k up to 128 / 256 must grow at most quadratically.",
         "note": "no random sampling; regex-engine time is guarded by alarms only; CPython 3.12 / Django 5.1, default tag formatter",
     },
